@@ -319,6 +319,244 @@ def emit_iter_nav(L, pkgpath, iname, meths, stats):
             stats["functions"] += 1
 
 
+VOCABS_GO = ["ActivityStreams", "ForgeFed", "Toot", "W3IDSecurityV1"]
+CODEC = {  # kind field name (lower case, without "member") -> (package name, function) of streams/values
+    "xmlschemastring": ("string", "DeserializeString"), "xmlschemaanyuri": ("anyURI", "DeserializeAnyURI"),
+    "xmlschemadatetime": ("dateTime", "DeserializeDateTime"), "xmlschemaboolean": ("boolean", "DeserializeBoolean"),
+    "xmlschemaduration": ("duration", "DeserializeDuration"), "xmlschemafloat": ("float", "DeserializeFloat"),
+    "xmlschemanonnegativeinteger": ("nonNegativeInteger", "DeserializeNonNegativeInteger"),
+    "rdflangstring": ("langString", "DeserializeLangString"), "rfcbcp47": ("bcp47", "DeserializeBcp47"),
+    "rfcrfc2045": ("rfc2045", "DeserializeRfc2045"), "rfcrfc5988": ("rfc5988", "DeserializeRfc5988"),
+}
+MAPT = 'typetag("map[string]interface{}")'
+STRT = 'typetag("string")'
+
+
+def manager_method(gotype):
+    """vocab.ActivityStreamsAccept -> DeserializeAcceptActivityStreams"""
+    n = gotype[len("vocab."):]
+    for v in VOCABS_GO:
+        if n.startswith(v):
+            return "Deserialize%s%s" % (n[len(v):], v)
+    return None
+
+
+def decode_chain(slot, raw, res, stats, where, pre="", extra=""):
+    """clauses: which representation the decoded slot `res` holds, as a function of the raw JSON value `raw`"""
+    ikinds = [k for k in slot.kinds if not k[1] and k[2].startswith("vocab.")]
+    lkinds = [k for k in slot.kinds if k not in ikinds]
+    out = []
+    oks = []
+    for k in ikinds:
+        mm = manager_method(k[2])
+        if mm is None:
+            stats["unmatched"].append(where + ": no manager decoder for " + k[2])
+            return None
+        fnv = 'decFnByName("%s")' % mm
+        ok = "decOK(%s, %s.pl, aliasMap)" % (fnv, raw)
+        val = "decVal(%s, %s.pl, aliasMap)" % (fnv, raw)
+        prem = " && ".join(["%s.dyn == %s" % (raw, MAPT), ok] + ["!" + o for o in oks])
+        out.append("[C12] ensures an_embedded_%s_is_decoded_as_that_kind: %s%s ==> err_is_nil && %s != nil && %s.%s == %s && %s%s" % (
+            k[0][:-len("Member")], pre, prem, res, res, k[0], val, " && ".join(cleared_except(slot, k, res)), extra))
+        oks.append(ok)
+    nomap = "(%s.dyn != %s%s)" % (raw, MAPT, "".join(" || (" + " && ".join("!" + o for o in oks) + ")" if oks else ""))
+    noiri = "(%s.dyn != %s || !gIriTaken)" % (raw, STRT)
+    louts = []
+    for k in lkinds:
+        key = k[0][:-len("Member")].lower()
+        if key not in CODEC:
+            stats["unmatched"].append(where + ": no codec for " + k[0])
+            return None
+        pkg, fn = CODEC[key]
+        ok = "%s.%s_1(%s) == nil" % (pkg.lower(), fn, raw)
+        val = "%s.%s_0(%s)" % (pkg.lower(), fn, raw)
+        prem = " && ".join([nomap, noiri, ok] + ["!(" + o + ")" for o in louts])
+        held = "%s.%s == %s" % (res, k[0], val) + (" && %s.%s" % (res, k[1]) if k[1] else "")
+        out.append("[C12] ensures a_%s_literal_is_decoded_as_that_kind: %s%s ==> err_is_nil && %s != nil && %s && %s%s" % (
+            key, pre, prem, res, held, " && ".join(cleared_except(slot, k, res)), extra))
+        louts.append(ok)
+    prem = " && ".join([nomap, noiri] + ["!(" + o + ")" for o in louts])
+    allclear = []
+    for k in slot.kinds:
+        allclear.append("!%s.%s" % (res, k[1]) if k[1] else "%s.%s == nil" % (res, k[0]))
+    out.append("[C12] ensures anything_else_is_kept_as_unknown: %s%s ==> err_is_nil && %s != nil && %s.unknown == %s && %s.iri == nil%s%s" % (
+        pre, prem, res, res, raw, res, "".join(" && " + c for c in allclear), extra))
+    out.append("[C12] ensures an_iri_string_is_decoded_as_an_iri: %s%s.dyn == %s && gIriTaken ==> err_is_nil && %s != nil && %s.iri != nil && %s.unknown == nil%s%s" % (
+        pre, raw, STRT, res, res, res, "".join(" && " + c for c in allclear), extra))
+    return out
+
+
+def emit_decoders(L, pkgpath, structs, methods, src, stats):
+    """decoders are package-level functions: deserialize<Iterator>(i, aliasMap) and, for functional
+    properties, Deserialize<Name>Property(m, aliasMap)"""
+    iter_decoders = {}
+    for m in re.finditer(r"^func (deserialize\w+Iterator)\((\w+) interface\{\}, (\w+) map\[string\]string\) \(\*(\w+), error\)", src, re.M):
+        fname, pi, pa, iname = m.groups()
+        if iname not in structs:
+            continue
+        slot = Slot(iname, structs[iname])
+        if not slot.ok or not slot.kinds or pa != "aliasMap":
+            stats["skipped_structs"].append(pkgpath + "." + fname)
+            continue
+        if not dec_in_tier(pkgpath, slot):
+            stats.setdefault("left_to_thorough_tier", []).append(pkgpath + "." + fname)
+            continue
+        cl = decode_chain(slot, pi, "result0", stats, pkgpath + "." + fname)
+        if cl is None:
+            continue
+        L.append("func %s.%s" % (pkgpath, fname))
+        L.append("  params %s, aliasMap" % pi)
+        L.append("  modifies gIriTaken, alloc")
+        L.append("  [C12] at call net/url.Parse#1: ghost gIriTaken = ($res1 == nil && len($res0.Scheme) > 0)")
+        L.extend("  " + c.replace("err_is_nil", "result1 == nil") for c in cl)
+        L.append("  [C12] ensures a_decoded_element_is_a_new_object: result1 == nil ==> result0 != nil && fresh(result0) && allocated(result0)")
+        L.append("dyncall %s.%s.* satisfies slot-decoder-call" % (pkgpath, fname))
+        stats["functions"] += 1
+        iter_decoders[iname] = fname
+    for m in re.finditer(r"^func (Deserialize\w+Property)\((\w+) map\[string\]interface\{\}, (\w+) map\[string\]string\) \(\*(\w+), error\)", src, re.M):
+        fname, pm, pa, sname = m.groups()
+        if sname not in structs:
+            continue
+        slot = Slot(sname, structs[sname])
+        key = tuple(pkgpath.split("/")[-2:])
+        if not slot.ok or not slot.kinds or pa != "aliasMap" or pm != "m" or key not in ONTOPROPS:
+            stats["skipped_structs"].append(pkgpath + "." + fname)
+            continue
+        op = ONTOPROPS[key]
+        if not dec_in_tier(pkgpath, slot):
+            stats.setdefault("left_to_thorough_tier", []).append(pkgpath + "." + fname)
+            continue
+        L.append("func %s.%s" % (pkgpath, fname))
+        L.append("  params m, aliasMap")
+        L.append("  modifies gIriTaken")
+        L.append('  let A = (has(aliasMap, "%s") ? aliasMap["%s"] : "")' % (op["uri"], op["uri"]))
+        L.append('  let PN = (len(A) > 0 ? A + ":" + "%s" : "%s")' % (op["name"], op["name"]))
+        if "langString" in op["range"]:
+            L.append('  let PRESENT = (has(m, PN) || has(m, PN + "Map"))')
+            L.append('  let RAW = (has(m, PN) ? m[PN] : m[PN + "Map"])')
+        else:
+            L.append('  let PRESENT = has(m, PN)')
+            L.append('  let RAW = m[PN]')
+        L.append("  [C12] at call net/url.Parse#1: ghost gIriTaken = ($res1 == nil && len($res0.Scheme) > 0)")
+        L.append("  [C12] ensures an_absent_property_decodes_to_nothing: !PRESENT ==> result0 == nil && result1 == nil")
+        cl = decode_chain(slot, "RAW", "result0", stats, pkgpath + "." + fname, pre="PRESENT && ", extra=" && result0.alias == A")
+        if cl is None:
+            L.append("  [C12] ensures placeholder: true")
+            continue
+        L.extend("  " + c.replace("err_is_nil", "result1 == nil") for c in cl)
+        L.append("dyncall %s.%s.* satisfies slot-decoder-call" % (pkgpath, fname))
+        stats["functions"] += 1
+    # list-valued properties: one element per member of a JSON list (or the single value), in order, each the result
+    # of the element decoder on that member; elements know their owner and position
+    for m in re.finditer(r"^func (Deserialize\w+Property)\((\w+) map\[string\]interface\{\}, (\w+) map\[string\]string\) \(vocab\.(\w+), error\)", src, re.M):
+        fname, pm, pa, vname = m.groups()
+        sname = vname
+        key = tuple(pkgpath.split("/")[-2:])
+        if sname not in structs or [f for f, _ in structs[sname]] != ["properties", "alias"] or key not in ONTOPROPS or pm != "m" or pa != "aliasMap":
+            continue
+        iname = structs[sname][0][1].replace("[]*", "")
+        if iname not in iter_decoders:
+            stats["skipped_structs"].append(pkgpath + "." + fname)
+            continue
+        op = ONTOPROPS[key]
+        T = "%s.%s" % (pkgpath, sname)
+        R = 'cast(result0.pl, "*%s")' % T
+        L.append("func %s.%s" % (pkgpath, fname))
+        L.append("  params m, aliasMap")
+        L.append("  modifies gItN, gItRaw, gItRes, gIriTaken")
+        L.append('  let A = (has(aliasMap, "%s") ? aliasMap["%s"] : "")' % (op["uri"], op["uri"]))
+        L.append('  let PN = (len(A) > 0 ? A + ":" + "%s" : "%s")' % (op["name"], op["name"]))
+        if "langString" in op["range"]:
+            L.append('  let PRESENT = (has(m, PN) || has(m, PN + "Map"))')
+            L.append('  let RAW = (has(m, PN) ? m[PN] : m[PN + "Map"])')
+        else:
+            L.append('  let PRESENT = has(m, PN)')
+            L.append('  let RAW = m[PN]')
+        L.append('  let ISLIST = (RAW.dyn == typetag("[]interface{}"))')
+        L.append('  let LIST = unboxas(RAW, "[]interface{}")')
+        L.append('  let N = (ISLIST ? len(LIST) : 1)')
+        L.append('  let G0 = gItN')
+        dk = "%s.%s" % (pkgpath, iter_decoders[iname])
+        L.append("  [C12] at call %s#*: ghost gItRaw = gItRaw[gItN := $arg0]" % dk)
+        L.append("  [C12] at call %s#*: ghost gItRes = gItRes[gItN := $res0]" % dk)
+        L.append("  [C12] at call %s#*: ghost gItN = gItN + 1" % dk)
+        L.append("  [C12] ensures an_absent_property_decodes_to_nothing: !PRESENT ==> result0 == nil && result1 == nil")
+        L.append('  [C12] ensures one_element_per_member_in_order: PRESENT && result1 == nil ==> result0.dyn == typetag("*%s") && %s != nil && %s.alias == A && len(%s.properties) == N && gItN == G0 + N && (forall k Int :: {%s.properties[k]} 0 <= k && k < N ==> %s.properties[k] == gItRes[G0 + k] && gItRaw[G0 + k] == (ISLIST ? LIST[k] : RAW))' % (T, R, R, R, R, R))
+        L.append('  [C12] ensures elements_know_their_owner_and_position: PRESENT && result1 == nil ==> (forall k Int :: {%s.properties[k]} 0 <= k && k < N ==> %s.properties[k].parent == result0 && %s.properties[k].myIdx == k)' % (R, R, R))
+        for lo in (1, 2):
+            L.append("  loop %d [C12] invariant own_new_object: this != nil && fresh(this) && this.alias == A && (arrof(this.properties) == 0 || fresh(arrof(this.properties)))" % lo)
+            L.append("  loop %d [C12] invariant logged_results_exist: forall j Int :: {gItRes[j]} G0 <= j && j < gItN ==> gItRes[j] != nil && allocated(gItRes[j])" % lo)
+            L.append("  loop %d [C12] invariant logged_results_are_new: forall j Int :: {gItRes[j]} G0 <= j && j < gItN ==> fresh(gItRes[j]) && gItRes[j] != this" % lo)
+            L.append("  loop %d [C12] invariant logged_results_are_distinct: forall j Int, k Int :: {gItRes[j], gItRes[k]} G0 <= j && j < k && k < gItN ==> gItRes[j] != gItRes[k]" % lo)
+        L.append("  loop 1 [C12] invariant decoded_so_far: PRESENT && ISLIST && $ri + 1 <= len(LIST) && len(this.properties) == $ri + 1 && gItN == G0 + $ri + 1 && (forall k Int :: {this.properties[k]} 0 <= k && k <= $ri ==> this.properties[k] == gItRes[G0 + k] && gItRaw[G0 + k] == LIST[k])")
+        L.append("  loop 2 [C12] invariant all_decoded: PRESENT && len(this.properties) == N && gItN == G0 + N && $ri + 1 <= N && (forall k Int :: {this.properties[k]} 0 <= k && k < N ==> this.properties[k] == gItRes[G0 + k] && gItRaw[G0 + k] == (ISLIST ? LIST[k] : RAW))")
+        L.append('  loop 2 [C12] invariant linked_so_far: forall k Int :: {this.properties[k]} 0 <= k && k <= $ri ==> this.properties[k].parent == asiface(this, "*%s") && this.properties[k].myIdx == k' % T)
+        stats["functions"] += 1
+    # Name(): the member name a property is written under -- the "Map" form exactly when a natural-language
+    # property holds a language map (an alias prefix is allowed either way)
+    key = tuple(pkgpath.split("/")[-2:])
+    if key in ONTOPROPS:
+        op = ONTOPROPS[key]
+        N = op["name"]
+        natural = "langString" in op["range"]
+        for sname, fields in structs.items():
+            if not sname.endswith("Property"):
+                continue
+            if "Name" not in methods.get(sname, {}):
+                continue
+            names = [f for f, _ in fields]
+            plain = '(result == "%s" || result == this.alias + ":" + "%s")' % (N, N)
+            mapf = '(result == "%sMap" || result == this.alias + ":" + "%sMap")' % (N, N)
+            if "properties" in names:
+                # Name() of a list goes through At(0).IsRDFLangString() on the element's interface: the dynamic
+                # dispatch is outside what this pass resolves; not under contract (named gap)
+                stats["skipped_structs"].append(pkgpath + "." + sname + ".Name")
+                continue
+                lang = "len(this.properties) == 1 && this.properties[0].rdfLangStringMember != nil"
+                nolang = "(forall k Int :: 0 <= k && k < len(this.properties) ==> this.properties[k].rdfLangStringMember == nil)"
+            else:
+                lang = "this.rdfLangStringMember != nil"
+                nolang = "this.rdfLangStringMember == nil"
+            L.append("func (%s.%s).Name" % (pkgpath, sname))
+            L.append("  params this")
+            if natural:
+                L.append("  [C12] ensures a_language_map_is_written_in_the_Map_form: %s ==> %s" % (lang, mapf))
+                L.append("  [C12] ensures other_values_are_written_under_the_plain_name: %s ==> %s" % (nolang, plain))
+            else:
+                L.append("  [C12] ensures written_under_the_plain_name: %s" % plain)
+            stats["functions"] += 1
+    # the package's private manager: names the decoder function of each type
+    mi = re.search(r"^type privateManager interface \{\n(.*?)^\}", open(os.path.join(os.path.dirname(src_path_of[pkgpath]), "gen_pkg.go")).read(), re.M | re.S) if pkgpath in src_path_of else None
+    if mi:
+        for mm in re.finditer(r"^\t(Deserialize\w+)\(\) func\(map\[string\]interface\{\}, map\[string\]string\)", mi.group(1), re.M):
+            L.append("iface %s.privateManager.%s" % (pkgpath, mm.group(1)))
+            L.append('  ensures result == decFnByName("%s") && result != nil' % mm.group(1))
+
+
+src_path_of = {}
+ONTOPROPS = {}
+DEC_QUICK = False
+# quick tier: every decoder of a property with at most 8 value kinds, plus these properties with the full
+# (60+ kinds) object range; the thorough tier takes all of them
+DEC_QUICK_BIG = {"property_object", "property_inreplyto", "property_to", "property_items", "property_ordereditems", "property_actor"}
+
+
+def dec_in_tier(pkgpath, slot):
+    return not DEC_QUICK or len(slot.kinds) <= 8 or pkgpath.split("/")[-1] in DEC_QUICK_BIG
+
+
+def load_ontoprops(repo):
+    sys.path.insert(0, os.path.dirname(os.path.abspath(__file__)))
+    import ontology
+    _, props = ontology.load(repo)
+    # several vocabularies may define a property of the same name: re-read per vocabulary
+    for fn, prefix, impldir, uri in ontology.VOCABS:
+        doc = json.load(open(os.path.join(repo, "astool", fn)))
+        for mm in ontology.members_of(doc):
+            if ontology.is_property(mm):
+                ONTOPROPS[(impldir, "property_" + mm["name"].lower())] = dict(name=mm["name"], uri=uri, range=ontology.ref_names(mm.get("range")))
+
+
 def main():
     repo = sys.argv[1]
     out = sys.argv[2]
@@ -336,6 +574,20 @@ def main():
             continue
         pkg, structs, methods = parse(path)
         stats["packages"] += 1
+        if level in ("decoders", "decoders-quick") and not stats.get("codecs_declared"):
+            stats["codecs_declared"] = True
+            load_ontoprops(repo)
+            for pk, fnn in sorted(set(CODEC.values())):
+                L.append("func streams/values/%s.%s" % (pk, fnn))
+                L.append("  params this")
+                L.append("  pure none")
+            L.append("")
+        if level in ("decoders", "decoders-quick"):
+            globals()["DEC_QUICK"] = level == "decoders-quick"
+            src_path_of[rel] = path
+            emit_decoders(L, rel, structs, methods, open(path).read(), stats)
+            L.append("")
+            continue
         for sname, fields in structs.items():
             names = [f for f, _ in fields]
             if names == ["properties", "alias"]:
